@@ -28,12 +28,36 @@ Definition rec_is_data (r : rec) : bool := match r with DRec _ _ _ _ => true | _
 Definition rec_len (r : rec) : N :=
   match r with TRec _ _ _ buf _ => blen buf | DRec _ _ _ len => len end.
 
+(* dataRecord.GetBuffer. The buffer has the length d.len that was accumulated when the elements
+   were ADDED; the fields are encoded from the element objects as they are NOW, each at the
+   running index, which advances by the element's current GetLength() (the two differ when the
+   value of a variable-length element was changed after the add: the element objects are shared
+   with the application). [Codec.get_buffer_loop] is that loop (per element: "buffer size is not
+   enough" when index+GetLength() exceeds the buffer, otherwise the per-type write; errors are
+   logged, the first one is kept in d.encodeErr, the index advances regardless).
+   Second component: 0 iff d.encodeErr stays nil. Since the repair "data record: an element
+   whose length changed ..." a final index different from d.len is an encode error too. *)
+Definition enc_total (els : list (ie * value)) : nat :=
+  fold_left (fun a ev => (a + N.to_nat (elem_len (fst ev) (snd ev)))%nat) els 0%nat.
+(* [fz]: the repair "data record of length zero: encode its elements once" - before it, the nil
+   buffer of a record with d.len = 0 satisfied len(d.buffer) == d.len and nothing was encoded
+   (nor checked); [fl]: the record-length repair *)
+Definition get_buffer_g (fz fl : bool) (len : N) (els : list (ie * value)) : outcome (list byte * nat) :=
+  let n := N.to_nat len in
+  if negb fz && Nat.eqb n 0 then Ok ([], 0%nat)
+  else
+    do (b, k) <- get_buffer_loop els (zeros n) 0 0;
+    Ok (b, if fl && Nat.eqb k 0 && negb (Nat.eqb (enc_total els) n) then 1%nat else k).
+Definition get_buffer_n (len : N) (els : list (ie * value)) : outcome (list byte * nat) :=
+  get_buffer_g true true len els.
+
 (* GetBuffer with the number of encode errors that were logged and dropped (ghost) *)
-Definition rec_buffer_e (r : rec) : outcome (list byte * nat) :=
+Definition rec_buffer_e_g (fz fl : bool) (r : rec) : outcome (list byte * nat) :=
   match r with
   | TRec _ _ _ buf _ => Ok (buf, 0%nat)
-  | DRec _ _ els _ => get_buffer els
+  | DRec _ _ els len => get_buffer_g fz fl len els
   end.
+Definition rec_buffer_e (r : rec) : outcome (list byte * nat) := rec_buffer_e_g true true r.
 Definition rec_buffer (r : rec) : outcome (list byte) := omap fst (rec_buffer_e r).
 
 (* GetMinDataRecordLen: only templateRecord implements it; on a dataRecord the call goes to the
@@ -117,3 +141,36 @@ Definition data_record_v2 (els : list (ie * value)) (id : N) : outcome rec :=
 Definition tpl_bytes (id : N) (ies : list ie) : list byte :=
   be 2 id ++ be 2 (N.of_nat (length ies)) ++ List.concat (map field_spec ies).
 Definition tpl_minlen (ies : list ie) : N := fold_left minlen_add ies 0.
+
+(* ---- element objects are shared with the application ---- *)
+(* SetXxxValue on an element object: the setter of another kind panics in the base
+   implementation ("accessing value of wrong data type") and changes nothing *)
+Definition same_kind (a b : value) : bool :=
+  match a, b with
+  | VOct _, VOct _ | VU8 _, VU8 _ | VU16 _, VU16 _ | VU32 _, VU32 _ | VU64 _, VU64 _
+  | VI8 _, VI8 _ | VI16 _, VI16 _ | VI32 _, VI32 _ | VI64 _, VI64 _
+  | VF32 _, VF32 _ | VF64 _, VF64 _ | VBool _, VBool _ | VMac _, VMac _ | VStr _, VStr _
+  | VDts _, VDts _ | VDtms _, VDtms _ | VIP _, VIP _ => true
+  | _, _ => false
+  end.
+(* dateTimeSeconds / dateTimeMilliseconds elements take their value through SetUnsigned32Value /
+   SetUnsigned64Value, like unsigned32 / unsigned64 elements: the object keeps its kind *)
+Definition new_val (old v : value) : value :=
+  match old, v with
+  | VDts _, VU32 n => VDts n | VU32 _, VDts n => VU32 n
+  | VDtms _, VU64 n => VDtms n | VU64 _, VDtms n => VU64 n
+  | _, _ => if same_kind old v then v else old
+  end.
+Fixpoint set_nth_val (j : nat) (v : value) (els : list (ie * value)) : list (ie * value) :=
+  match els, j with
+  | [], _ => []
+  | (e, old) :: r, O => (e, new_val old v) :: r
+  | ev :: r, S j' => ev :: set_nth_val j' v r
+  end.
+(* what a record that holds the element objects sees afterwards: the new value; its length
+   (data record) and its buffer (template record) stay what they were when it was built *)
+Definition rec_set_val (j : nat) (v : value) (r : rec) : rec :=
+  match r with
+  | TRec t f els b m => TRec t f (set_nth_val j v els) b m
+  | DRec t f els len => DRec t f (set_nth_val j v els) len
+  end.
